@@ -101,6 +101,7 @@ def ops_for(obj, m, depth):
         if "val" in m.cols:
             ops.append(("cols", ("val", m.active)))
             ops.append(("cols_nogeom",))
+        ops += [("nogeom", "isna"), ("nogeom", "notna"), ("nogeom", "astype_object"), ("nogeom", "isin")]
         if len(g) >= 2:
             ops.append(("cols", tuple(c for c in m.cols if c != [x for x in g if x != m.active][0])))
         for o in g:
@@ -218,6 +219,10 @@ def apply_real(obj, m, op, scratch):
         return obj[[rn(c) for c in op[1]]]
     if t == "cols_nogeom":
         return obj[["val"]]
+    if t == "nogeom":
+        # element-wise results that keep the column labels but hold no geometry any more
+        return {"isna": lambda: obj.isna(), "notna": lambda: obj.notna(), "astype_object": lambda: obj.astype(object),
+                "isin": lambda: obj.isin([0, 10])}[op[1]]()
     if t == "set_geometry":
         return obj.set_geometry(rn(op[1]))
     if t == "to_dask":
@@ -327,6 +332,25 @@ def check_pandas_state(col, obj, m, hist, case):
             col.violation("pd.build_sindex_column", case, f"build_sindex built an index on {built}, expected [{m.active}]", op=op)
     except Exception as ex:
         col.violation("pd.build_sindex.raises", case, f"{type(ex).__name__}: {str(ex)[:150]}", op=op)
+    # set_geometry without inplace=True gives an independent frame, also when the column is already the active one
+    others = [g for g in m.geoms() if g != m.active]
+    if others:
+        try:
+            col.count("evaluations", 2)
+            src = obj.copy()
+            held = src.set_geometry(rn(m.active))
+            held.set_geometry(rn(others[0]), inplace=True)
+            if mn(src.geometry.name) != m.active or mn(held.geometry.name) != others[0]:
+                col.violation("pd.set_geometry_aliases", case, f"r = f.set_geometry({m.active!r}) (already active); r.set_geometry({others[0]!r}, inplace=True): "
+                              f"f is now {src.geometry.name!r}, r {held.geometry.name!r}", op=op)
+            src = obj.copy()
+            held = src.set_geometry(rn(m.active))
+            src.set_geometry(rn(others[0]), inplace=True)
+            if mn(held.geometry.name) != m.active:
+                col.violation("pd.set_geometry_aliases", case, f"r = f.set_geometry({m.active!r}); f.set_geometry({others[0]!r}, inplace=True): r is now "
+                              f"{held.geometry.name!r}", op=op)
+        except Exception as ex:
+            col.violation("pd.set_geometry_probe.raises", case, f"{type(ex).__name__}: {str(ex)[:150]}", op=op)
     # sjoin with this frame on the right: matches are decided by the active column
     if ids is not None and len(obj) > 0:
         try:
@@ -456,7 +480,7 @@ def explore(col, active, depth, shard, nshards, scratch, pts_name="pts"):
             return None
         cur, cm = build_root()
         for o in hist + [op]:
-            if o[0] == "cols_nogeom":
+            if o[0] in ("cols_nogeom", "nogeom"):
                 try:
                     r = apply_real(cur, cm, o, scratch)
                     col.count("evaluations")
@@ -634,7 +658,7 @@ def replay(ctx, case):
     hist = []
     for o in case["history"]:
         o = tuple(tuple(x) if isinstance(x, list) else x for x in o)
-        if o[0] == "cols_nogeom":
+        if o[0] in ("cols_nogeom", "nogeom"):
             import pandas as pd
             r = apply_real(cur, cm, o, scratch)
             if type(r) is not pd.DataFrame:
